@@ -81,7 +81,7 @@ def make_inputs(ctx):
         progen = ['N_total', 'haloindex', 'npoutA_merge']
         deps = {'sigmavMid_com': ['sigmavMaj_com', 'sigmavMin_com'], 'sigmavMid_L2com': ['sigmavMaj_L2com', 'sigmavMin_L2com']}
     nrows = 2
-    pairs = [(500.0, 30000.0)] if ctx.quick() else [(500.0, 30000.0), (0.5, 8.0), (7.0, 3.0)]
+    pairs = [(500.0, 30000.0)] if ctx.quick() else [(500.0, 30000.0), (0.5, 8.0)]
     cats = []
     for (b, z) in pairs:
         cats.append(dict(box=b, zkms=z, nrows=nrows, halo=hs.gen_values(rng, hs.raw_schema(), nrows, npout=2),
